@@ -322,6 +322,11 @@ def run(tier, seed, replay_path=None):
             o.violate(fl[0]["clause"], {"file": c["file"], "beh": c["beh"]},
                       {"clauses": [f["clause"] for f in fl], "diag": fl[0].get("diag"), "text": c["text"], "events": c["events"]})
         o.notes["whitebox_identity_checks"] = nwb
+        # the copy clause on many files (several copies of one source, redefinitions, copies as CDecay sources)
+        from . import decfam, decrand
+        specs = [decrand.gen_c08(rng, i % 2 == 0) for i in range(3000 if deep else 300)]
+        ccases, crej = decfam.run_cases("C08C", specs, o, wd, "judge CopyDecay tables of random files (DecTrace JudgeC08C)", seed + 5)
+        o.notes["copy_files"] = len(ccases)
         # binding self test
         for i, c in enumerate(cases):
             if i not in rej and len(c["events"]) >= 2:
